@@ -132,7 +132,10 @@ def register(R):
     )
 
 
-ROOTS = [f'{TASK}.__call__', f'{TASK}._execute_main', f'{T}:SubmissionTask._main']
+ROOTS = [f'{TASK}.__call__', f'{TASK}._execute_main', f'{T}:SubmissionTask._main',
+         # retry budget / only stream errors are retried
+         's3transfer.download:GetObjectTask._main', 's3transfer.processpool:GetObjectWorker._do_get_object',
+         's3transfer:MultipartDownloader._download_range']
 
 MANIFEST = dict(
     category='proof',
